@@ -54,8 +54,36 @@ def _analyse_sibling(chk, r1, r2, r3, f: FuncInfo, br) -> Dict[str, object]:
             frac = unparse(v.left)
             ok = frac == "temperature_features.temperature_not_null / (temperature_features.temperature_not_null + temperature_features.temperature_null)"
     r3.require(ok, f"{f.key}|hourly-50%-rule", f.where(inv[0]) if inv else f.where(), f"{f.qualname}: a meter day is invalid iff not_null / (not_null + null) <= 0.5")
+    # "iff": every further definition / in-place widening of the mask (|=, &=, a second assignment, .loc stores) makes days
+    # with more than half of their readings present come out missing (or the reverse)
+    extra = []
+    for s in cfg.stmts():
+        if s in inv[:1]:
+            continue
+        tgt = None
+        if isinstance(s, ast.AugAssign):
+            tgt = s.target
+        elif isinstance(s, ast.Assign):
+            tgt = s.targets[0]
+        elif isinstance(s, ast.AnnAssign):
+            tgt = s.target
+        if tgt is None:
+            continue
+        base = tgt
+        while isinstance(base, (ast.Subscript, ast.Attribute)):
+            base = base.value
+        if isinstance(base, ast.Name) and base.id == "invalid_temperature_rows":
+            extra.append(s)
+    for s in extra:
+        r3.require(False, f"{f.key}|hourly-50%-rule:extra-term", f.where(s),
+                   f"{f.qualname}: `{unparse(s)[:110]}` widens/redefines the invalid-day mask beyond not_null / (not_null + null) <= 0.5: a day with more than half of its readings present "
+                   f"(e.g. 12 of the 23 readings of a spring-forward day against a median of 24) is blanked", sample={"function": f.qualname, "statement": unparse(s)[:160]})
+    r3.inst(f"{f.key}|invalid-mask-definitions={1 + len(extra)}")
     blank = [s for s in cfg.stmts() if isinstance(s, ast.Assign) and isinstance(s.targets[0], ast.Subscript) and "invalid_temperature_rows" in unparse(s.targets[0]) and unparse(s.value) == "np.nan"]
-    r3.require(len(blank) == 1 and "'temperature_mean'" in unparse(blank[0].targets[0]), f"{f.key}|hourly-blank", f.where(), f"{f.qualname}: invalid meter days must have temperature_mean set to NaN")
+    def _sel_ok(t):
+        sl = t.slice
+        return isinstance(sl, ast.Tuple) and len(sl.elts) == 2 and isinstance(sl.elts[0], ast.Name) and sl.elts[0].id == "invalid_temperature_rows" and const_str(sl.elts[1]) == "temperature_mean"
+    r3.require(len(blank) == 1 and _sel_ok(blank[0].targets[0]), f"{f.key}|hourly-blank", f.where(), f"{f.qualname}: exactly the invalid meter days (row selector `invalid_temperature_rows`, nothing or-ed/and-ed to it) must have temperature_mean set to NaN")
     # ---- R09.2 frequency-kind typing of the count columns on the non-hourly route
     for s in cfg.stmts():
         if isinstance(s, ast.Assign) and isinstance(s.targets[0], ast.Subscript) and unparse(s.targets[0].value) == "temperature_features" and const_str(s.targets[0].slice) in ("temperature_null", "temperature_not_null"):
